@@ -9,12 +9,12 @@ CFG = {
     "families": {
         "history": {"header": _H, "model_fn": "model_history", "rule": "F"},
     },
-    "rule_text": "case = one history of add_raw_templates / autoescape_on calls on one long-lived instance over a pool of 30 "
+    "rule_text": "case = one history of add_raw_templates / autoescape_on calls on one long-lived instance over a pool of 35 "
                  "(name, source) descriptors that contains every failure kind (syntax error, missing parent, extends cycle, "
                  "include cycle, unknown filter / test / function / component / include target, duplicate component, orphan "
-                 "block, a replacement that breaks a dependent template, and replacements that keep name, byte length, parent chain and block names while changing content, with descendants at distance 1 and 2), with the implementation's accept/reject + ErrorKind "
+                 "block, a replacement that breaks a dependent template, and replacements that keep name, byte length, parent chain and block names while changing content, with descendants at distance 1 and 2, and replacements that change the parent chain of a template with descendants at distance 2 and 3), with the implementation's accept/reject + ErrorKind "
                  "after each call. Distinct by the Gallina term; non-trivial = at least two calls with at least one success and "
-                 "one failure. Exhaustive sub-space: every history of <= 2 (thorough: <= 3) single-template calls and every "
+                 "one failure. Exhaustive sub-space: every history of <= 2 single-template calls (thorough: plus a sampled half of the 3-call ones) and every "
                  "two-template batch; every pool descriptor as a replacement on top of an accepted core, pairs of same-name variants as successive replacements, failing batches that repeat a name (undo order); the rest random (length <= 12, batches of 1..3, autoescape_on interleaved). After a failing add that touched existing or repeated names the observation is taken in a child process, so that a never-validated template left behind by a broken rollback is reported with its history instead of killing the harness. "
                  "Implementation-side oracle on every call: a failing call leaves names / every render / every render_block / "
                  "every get_component_definition and render_component unchanged; after every call the instance is "
